@@ -7,4 +7,6 @@ require (
 	github.com/virus-evolution/gofasta v0.0.0
 )
 
+require golang.org/x/exp v0.0.0-20230116083435-1de6713980de // indirect
+
 replace github.com/virus-evolution/gofasta => /repo
